@@ -75,6 +75,12 @@ EXC_OBJECTS = {
     "value_empty": ValueError(),
     "keyboard_empty": KeyboardInterrupt(),
     "assert_empty": AssertionError(),
+    # exceptions whose args are empty or not a single string
+    "key_empty": KeyError(),
+    "key_tuple": KeyError(("a", 1)),
+    "os_empty": OSError(),
+    "args_two": RuntimeError(1, "two"),
+    "system_exit": SystemExit(3),
 }
 
 
@@ -281,6 +287,48 @@ class VDualPayloadStore(PayloadSource, PayloadSink[FloatDataCollection]):
     @classmethod
     def input_data_type(cls):
         return FloatDataCollection
+
+
+class VLab:
+    """Namespace class: the data type below is a nested class (its __qualname__ differs from its __name__)."""
+
+    class Reading(FloatDataType):
+        """A float reading."""
+
+
+class VNestedTypeSource(DataSource):
+    """Source of a nested data type."""
+
+    @classmethod
+    def _get_data(cls):
+        return VLab.Reading(1.0)
+
+    @classmethod
+    def output_data_type(cls):
+        return VLab.Reading
+
+
+class VNestedTypeSink(DataSink[VLab.Reading]):
+    """Sink of a nested data type."""
+
+    @classmethod
+    def _send_data(cls, data):
+        return None
+
+    @classmethod
+    def input_data_type(cls):
+        return VLab.Reading
+
+
+class VNestedTypeProbe(FloatProbe):
+    """Probe of a nested data type."""
+
+    @classmethod
+    def input_data_type(cls):
+        return VLab.Reading
+
+    def _process_logic(self, data):
+        return data.data
 
 
 MODULE = __name__
